@@ -419,6 +419,14 @@ func mkMul(a, b *Term) *Term {
 			return a
 		}
 	}
+	// non-linear product with a conditional factor: distribute, so that both branches become
+	// the same syntactic terms the code computed on each path
+	if !isInt(b) && a.Op == OpIte && a.size < 400 {
+		return mkIte(a.Args[0], mkMul(a.Args[1], b), mkMul(a.Args[2], b))
+	}
+	if !isInt(a) && b.Op == OpIte && b.size < 400 {
+		return mkIte(b.Args[0], mkMul(a, b.Args[1]), mkMul(a, b.Args[2]))
+	}
 	return intern(&Term{Op: OpMul, Sort: sortInt, Args: []*Term{a, b}})
 }
 
@@ -447,6 +455,9 @@ func mkMod(a, b *Term) *Term {
 	}
 	if isInt(b) && b.Val.Cmp(big.NewInt(1)) == 0 {
 		return mkInt(0)
+	}
+	if isInt(b) && a.Op == OpIte && a.size < 400 && (a.Args[1].Op == OpMul || a.Args[2].Op == OpMul) {
+		return mkIte(a.Args[0], mkMod(a.Args[1], b), mkMod(a.Args[2], b))
 	}
 	// mod (mod x m) m = mod x m ; mod (mod x (k*m)) m = mod x m
 	if a.Op == OpMod && isInt(b) && isInt(a.Args[1]) && b.Val.Sign() > 0 {
